@@ -12,6 +12,7 @@ from ..model import Repo
 from ..report import Report
 from ..tables import module_attr
 from ..util import AnalysisError, always_raises, call_name, chain, names_loaded, norm, parent_map, resolve_local, short, walk_body, walk_local
+from .compiled import shape_of
 from .c02 import node_calls
 from .c05 import call_time_rule
 
@@ -179,6 +180,7 @@ def neutral_rule(repo: Repo, rep: Report, rid: str) -> None:
     rep.floor(rid, "uses of the compiled flag", nflag, 2)
 
 
+@shape_of("struct_rw", "compiled")
 def bookkeeping_rule(repo: Repo, rep: Report, rid: str, sizes_decided: bool = False) -> None:
     rep.rule(rid, "result bookkeeping parity: the generated reader sets the same attributes on the result (_sizes, _values) as the interpreter; every "
                   "template that stores r[k] for a byte-occupying field stores s[k] with the same key, the bit-field template stores neither s[k]")
